@@ -144,3 +144,16 @@ Theorem C01_accepted_summary : forall vk H K fl V t max_cost clvm_cost b spends 
     b_agg_sig_unsafe b = all_unsafe ps /\
     pairs = (if f_dont_validate fl then [] else all_pairs H K ps).
 Proof. exact accepted_summary. Qed.
+
+(* the mempool eligibility flags of every reported spend (mempool visitor; the block visitor reports none):
+   ELIGIBLE_FOR_DEDUP <=> no AGG_SIG_*, SEND_MESSAGE or RECEIVE_MESSAGE condition and created >= spent amount;
+   ELIGIBLE_FOR_FF <=> odd amount, only fast-forward-compatible conditions (ff_ok: no coin-id / relative / birth /
+   ephemeral assertion, no coin announcement, no signature or message committing to the parent, ASSERT_MY_PARENT_ID
+   only as the second condition), an output re-creating the same puzzle hash and amount, no
+   ASSERT_CONCURRENT_SPEND of the bundle naming this coin and none of its outputs spent in the same bundle *)
+From ChiaV.Cond Require Import Flags.
+Theorem C01_accepted_flags : forall vk H K fl V t max_cost clvm_cost b spends pairs,
+  parse_spends vk H K fl V t max_cost clvm_cost = Ok (b, spends, pairs) ->
+  exists ps, tree_syntax fl t = Ok ps /\
+    Forall2 (fun s p => sp_ff s = ff_rule H V ps p /\ sp_dedup s = dedup_rule V p) spends ps.
+Proof. exact accepted_flags. Qed.
